@@ -13,6 +13,7 @@ package selector
 //@ func BuildStaticWeightList
 //@   requires len(endpoints) <= 16777216
 //@   allocates
+//@   ensures unproved [C13] len(result) <= 101 * len(endpoints) + 1
 //@   ensures unproved [C13] forall j {result[j]} :: (0 <= j && j < len(result)) ==> (0 <= result[j] && result[j] < len(endpoints))
 //@   loop 0 invariant 0 - 2147483648 * (rangeindex + 1) <= totalCapacity && totalCapacity <= 2147483647 * (rangeindex + 1)
 //@   loop 1 invariant idToWeight != nil && objof(weightToId) != objof(staticWeightRouterCache)
